@@ -195,6 +195,8 @@ def parseX (l : Line) : Option XOp :=
   | "vemplace" => do some (.emplace (← j) (← v))
   | "vemplace_c" => do some (.emplaceCopy (← j) (← v))
   | "vemplace_m" => do some (.emplaceMove (← j) (← v))
+  | "vassign_c" => do some (.assignCopy (← j) (← v))
+  | "vassign_m" => do some (.assignMove (← j) (← v))
   | "oassign_c" => v.map .optAssignCopy
   | "oassign_m" => v.map .optAssignMove
   | "reset" => some .reset
@@ -229,6 +231,13 @@ def parseF (l : Line) : Option FOp :=
   | "invoke" => some .invoke
   | _ => none
 
+/-- which operations exist for which variant-like owner (mirrors the harness): the converting assignment ops are
+    variant's, `optional = T` and `reset` are optional's -/
+def xmember (own : Own) : XOp → Bool
+  | .assignCopy _ _ | .assignMove _ _ | .assignOwn => own == .var
+  | .optAssignCopy _ | .optAssignMove _ | .reset => own == .opt
+  | _ => true
+
 def bindSt (m : Except LErr St) (f : St → Except LErr St) : Except LErr St :=
   match m with
   | .error e => .error e
@@ -246,7 +255,7 @@ def opStep (ss : Ses) (l : Line) : Option Ses :=
       { ss with model := bindSt ss.model (fun s => sstep .ss ss.k ss.cap s t op), spec := Spec.sstep ss.cap ss.spec t op }
   | .fs => (parseS l).map fun op =>
       { ss with model := bindSt ss.model (fun s => sstep .fs ss.k ss.cap s t op), spec := Spec.sstep ss.cap ss.spec t op }
-  | .var | .opt | .exp => (parseX l).map fun op =>
+  | .var | .opt | .exp => ((parseX l).filter (xmember ss.own)).map fun op =>
       { ss with model := bindSt ss.model (fun s => xstep ss.k ss.own.trk s t op), spec := Spec.xstep ss.own.trk ss.spec t op }
   | .fn => (parseF l).map fun op =>
       { ss with model := bindSt ss.model (fun s => fstep ss.k s t op), spec := Spec.fstep ss.spec t op }
